@@ -2,8 +2,9 @@ INIT InitMask
 NEXT NextMask
 CONSTANTS
   N = 4
-  SelfLoops = TRUE
+  SelfLoops = FALSE
   Emit = TRUE
+  SeqMode = FALSE
 INVARIANT AlgRefinesRef
 INVARIANT GraphRepresents
 INVARIANT RefLaws
